@@ -29,6 +29,9 @@ MASKCFG = [
     {'mask_freqs': [0.3, 0.12, 0.05], 'mask_amp_mode': 'abs', 'nphases': 4, 'mask_amp': 0.7},
     {'mask_freqs': [0.25, 0.1, 0.04, 0.015, 0.006], 'mask_amp_mode': 'ratio_imf', 'nphases': 2, 'mask_amp': 2},
     {'mask_freqs': 0.12, 'mask_amp_mode': 'abs', 'nphases': 3, 'mask_step_factor': 3},
+    {'mask_freqs': 0.3, 'mask_amp_mode': 'ratio_sig', 'nphases': 2, 'extrema_opts': {'pad_width': 1}},
+    {'mask_freqs': 'zc', 'mask_amp_mode': 'ratio_imf', 'nphases': 3, 'envelope_opts': {'interp_method': 'pchip'},
+     'extrema_opts': {'parabolic_extrema': True}, 'imf_opts': {'sd_thresh': 0.2}},
 ]
 CAPS = (1, 2, 3, 4, 5, 6, None)
 
@@ -225,7 +228,8 @@ def check_mask(case):
         else:
             amp = mamp * full[:, k - 1].std()
         try:
-            want, _ = get_next_imf_mask(resid, freqs[k], amp, nphases=cfg['nphases'])
+            want, _ = get_next_imf_mask(resid, freqs[k], amp, nphases=cfg['nphases'], imf_opts=cfg.get('imf_opts'),
+                                        envelope_opts=cfg.get('envelope_opts'), extrema_opts=cfg.get('extrema_opts'))
         except Exception as e:
             viols.append(('mask:peel-raise', '%s: get_next_imf_mask on residual %d raised %r' % (tag, k, e)))
             break
